@@ -127,6 +127,16 @@ def _convert_internal_expression_to_pddl(
         )
         return f"(/ 1 {pddl_expression})"
 
+    if isinstance(expression, Pow) and expression.exp.is_Integer and expression.exp < -1:
+        pddl_expression = _convert_internal_expression_to_pddl(
+            Pow(expression.base, -expression.exp),
+            SYMPY_OP_TO_PDDL_OP[Pow],
+            symbols_map,
+            decimal_digits,
+            should_remove_trailing_zeros,
+        )
+        return f"(/ 1 {pddl_expression})"
+
     if isinstance(expression, Pow) and expression.exp > 1:
         return _recursive_pow_expression_to_pddl(expression, symbols_map)
 
